@@ -179,10 +179,9 @@ impl Number {
             return Err("Right-hand to << must be an integer".to_string());
         }
         let exp = num.as_int().unwrap();
-        let two = BigInt::from(2i64);
-        let exp = two.pow(exp as u32);
+        let exp = Numeric::from(2).pow(exp as i32);
         Ok(Number {
-            value: &self.value * &Numeric::from(exp),
+            value: &self.value * &exp,
             unit: self.unit.clone(),
         })
     }
@@ -199,10 +198,9 @@ impl Number {
             return Err("Right-hand to >> must be an integer".to_string());
         }
         let exp = num.as_int().unwrap();
-        let two = BigInt::from(2i64);
-        let exp = two.pow(exp as u32);
+        let exp = Numeric::from(2).pow(exp as i32);
         Ok(Number {
-            value: &self.value / &Numeric::from(exp),
+            value: &self.value / &exp,
             unit: self.unit.clone(),
         })
     }
